@@ -1,6 +1,7 @@
 import IceModel.Gather
 import IceSpec.C18
 import IceSpec.C09
+import IceSpec.C11Gather
 import Driver.Util
 /-!
 Driver component `gather`: runs `IceModel.Gather.step` in lock-step with the real agent of
@@ -59,6 +60,7 @@ def parseCfg (s : String) : Config :=
     turnUrls := (g "tu").toNat?.getD 0
     busy := parseBusy (g "busy")
     turnFail := (g "tf").toNat?.getD 0
+    turnCreds := (g "tc").toList.map (fun c => if c == 'u' then 1 else if c == 'p' then 2 else 0)
     relayRewrite := parseRewrite (g "rr")
     srflxRewrite := if (g "sr").startsWith "pin" then .none else parseRewrite (g "sr")
     srflxPinned :=
@@ -246,7 +248,9 @@ def monitors (se : Session) (toks : List String) (il : ImplLine) : Session × Op
     let ifs := match toks with | ["ifaces", t] => parseIfaces t | _ => se.ifs
     let (v18, m18) := IceSpec.C18.check se.ms.cfg ifs se.m18 opName il.r il.obs
     let (v09, m09) := IceSpec.C09.check se.m09 opName il.r il.obs
-    ({ se with ifs := ifs, m18 := m18, m09 := m09 }, v18, match v09 with | some w => [("C09", w)] | none => [])
+    let v11 := IceSpec.C11Gather.nilViolation il.obs
+    ({ se with ifs := ifs, m18 := m18, m09 := m09 }, v18,
+      (match v09 with | some w => [("C09", w)] | none => []) ++ (match v11 with | some w => [("C11", w)] | none => []))
 
 def step (st : State) (toks : List String) (impl : String) : State × Res :=
   match toks with
